@@ -4,6 +4,7 @@ package broker
 
 import (
 	"github.com/emitter-io/emitter/internal/provider/contract"
+	"github.com/emitter-io/emitter/internal/provider/storage"
 	"net/http"
 	"net"
 
@@ -22,3 +23,5 @@ func (s *Service) VerifConnections() int64 { return s.connections }
 func (s *Service) VerifHTTPHandler() http.Handler { return s.http.Handler }
 
 func (s *Service) VerifSetContracts(p contract.Provider) { s.contracts = p }
+
+func (s *Service) VerifStorage() storage.Storage { return s.storage }
